@@ -209,7 +209,15 @@ def run_case(col, case):
             fr = r.render(None, pad)
             inner = str(r)
         else:
-            it = L.render.RenderIterator(r, None, pad, 1, False)
+            if case["via"] == "repad":
+                # cached iterator: frames of loop 1 under another padding, then set_padding(pad):
+                # the cached frame 0 of loop 2 must carry exactly the new padding
+                it = L.render.RenderIterator(r, None, P.ExactPadding(1, 1, 2, 0, "y"), 2, True)
+                for _ in range(case["frames"]):
+                    next(it)
+                it.set_padding(pad)
+            else:
+                it = L.render.RenderIterator(r, None, pad, 1, False)
             fr = next(it)
             if case["via"] == "iter2":
                 fr = next(it)
@@ -297,7 +305,7 @@ def build_cases(tier):
         for size in sizes:
             for fill in fills:
                 for term in terms:
-                    for via, frames in (("render", 1), ("iter", 2), ("iter2", 2)):
+                    for via, frames in (("render", 1), ("iter", 2), ("iter2", 2), ("repad", 2)):
                         for a in aligned:
                             if quick and (a[2], a[3]) not in ((0, 0), (1, 1), (2, 2), (0, 2)):
                                 continue
